@@ -169,6 +169,7 @@ class History:
         self._fresh_key = None
         self._fresh = None
         self.oracle = True
+        self.anon_overrides = {}
         self.last_update = "none"
         self.last_update_kind = "none"
         self.operators = {}
@@ -179,10 +180,14 @@ class History:
 
     def fresh(self):
         vals = self.base_values()
-        key = tuple(sorted((k, tensor_digest(v)) for k, v in vals.items()))
+        key = tuple(sorted((k, tensor_digest(v)) for k, v in vals.items())) + tuple(sorted((str(k), tensor_digest(v)) for k, v in self.anon_overrides.items()))
         if key != self._fresh_key:
             try:
                 self._fresh = freshlib.build(freshlib.substitute(self.spec, vals))
+                # parameters without an id (numbers in a distribution's `parameters` block) cannot be
+                # addressed in the specification: the same values are assigned to the unevaluated copy
+                for (oid, pkey), t in self.anon_overrides.items():
+                    self._fresh[oid].dict_parameters[pkey].tensor = t.clone()
             except Exception:  # noqa: BLE001
                 # the current values cannot be given to a constructor (e.g. a mix of batched
                 # and unbatched shapes left behind by draws): no reference exists for this state
@@ -268,7 +273,9 @@ class History:
         self.stats["updates"] += 1
         target = self.dic.get(op.get("id"))
         self.last_update = "%s on %s(%s)" % (kind, type(target).__name__, op.get("id") if kind != "assign_many" else "S=%s" % op.get("S"))
-        self.last_update_kind = self.role_of(target) if kind != "assign_many" else "batch"
+        self.last_update_kind = self.role_of(target) if kind not in ("assign_many", "assign_anon") else {"assign_many": "batch", "assign_anon": "anonymous-parameter"}[kind]
+        if kind == "assign_anon":
+            self.last_update = "assign_anon on %s.%s" % (op["owner"], op["key"])
         vals_before = self.base_values()
         try:
             self.apply_raw(op)
@@ -317,6 +324,10 @@ class History:
             if kind in ("assign", "assign_view", "assign_cat", "assign_transformed"):
                 t = torch.tensor(op["values"], dtype=getattr(torch, op["dtype"]))
                 target.tensor = t
+            elif kind == "assign_anon":
+                t = torch.tensor(op["values"], dtype=getattr(torch, op["dtype"]))
+                self.dic[op["owner"]].dict_parameters[op["key"]].tensor = t
+                self.anon_overrides[(op["owner"], op["key"])] = t.clone()
             elif kind == "assign_many":
                 # switch every updatable parameter between [n] and [S, n] in one go
                 for pid in sorted(op["values"]):
@@ -376,6 +387,7 @@ class History:
             twin.flag_states, twin.classes_touched = set(), {}
             twin._fresh_key, twin._fresh, twin.last_update, twin.operators = None, None, "", {}
             twin.last_update_kind = ""
+            twin.anon_overrides = {}
             twin._twin = True
             twin.apply_raw(copy.deepcopy(op))
             return False
@@ -521,6 +533,10 @@ def generate(seed, index, tier):
     dists = [oid for oid, o in dic.items() if isinstance(o, Distribution) and recipe.get("draw", True)]
     upd = [p for p in domains if p in base]
     base_shapes = {p: tuple(base[p].tensor.shape) for p in upd}
+    from torchtree.core.parameter import Parameter as _P
+
+    anon = [(oid, key) for oid, o in dic.items() if isinstance(o, Distribution) for key, p in o.dict_parameters.items()
+            if type(p) is _P and p.id is None and p.tensor.dtype.is_floating_point]
     n_ops = k.randint(8, 50)
     policy = k.choice(["all", "leaf", "root", "random", "random", "child-sibling-parent"])
     scale = k.choice([0.01, 0.1, 0.1, 0.5])
@@ -621,6 +637,13 @@ def generate(seed, index, tier):
             if not okshape:
                 continue
             op = {"op": "assign_many", "values": vals, "dtypes": dts, "S": S}
+        elif u < 0.955 and anon:
+            oid, key = w.choice(anon)
+            t = hist.dic[oid].dict_parameters[key].tensor.detach()
+            import torch as _t
+
+            f = _t.tensor([math.exp(0.5 * scale * w.normal()) for _ in range(max(t.numel(), 1))], dtype=t.dtype).reshape(t.shape)
+            op = {"op": "assign_anon", "owner": oid, "key": key, "values": (t * f).tolist(), "dtype": str(t.dtype).split(".")[-1]}
         elif u < 0.96:
             pid = w.choice(upd)
             if not current(pid).is_leaf:
